@@ -64,7 +64,7 @@ func (x *X) runTasks(tasks [][]Op, preempts []simrt.Preempt, phasePrefix string)
 func init() {
 	Register(&Scenario{ID: "C08", Gen: genC08, Run: runC08,
 		Rule: "2-4 tasks, each 1-3 Parse/Validate/Collect operations with its own data, destination and options, on 1-3 schemas shared by all tasks; the baton scheduler preempts at simulator-chosen yield points (every instrumented function entry and loop head, " +
-			"every pool call, callback and read) and hands pool objects from task to task; every operation must return what its task returns running alone under the same visit orders, uncollected results must stay unchanged, schema fingerprints must not change; " +
+			"every pool call, callback and read) and hands pool objects from task to task; every operation must return what its task returns running alone (fresh pools, freshly built schemas) under the same visit orders, uncollected results must stay unchanged, Sanitize*AndCollect must return the messages it was handed; " +
 			"a share of the worlds runs in the -race build with the hand-offs hidden from the detector. Non-trivial iff >=1 preemption happened inside a Parse/Validate and >=1 pool object crossed tasks; distinct by (schemas, operations, interleaving signature, decision vectors)"})
 }
 
@@ -131,7 +131,9 @@ func runC08(x *X) *Violation {
 			sortPreempts(w.Preempts)
 		}
 	}
-	// concurrent execution
+	// concurrent execution, on schemas nobody has used yet (first uses may race too)
+	x.BuildSchemas()
+	fp0 = x.fingerprints()
 	x.FreshRun("c")
 	con := x.runTasks(w.Tasks, w.Preempts, "c")
 	x.Sig.WriteString(con.sig)
@@ -641,6 +643,7 @@ func runC08Race(x *X) *Violation {
 		sortPreempts(w.Preempts)
 	}
 	x.foldRun()
+	x.BuildSchemas() // schemas nobody has used yet: lazily initialised state races on first use
 	r := simrt.NewRun(nil)
 	r.Lean = true
 	x.R = r
